@@ -48,13 +48,19 @@ func (a baseAlgo) SelectBeacons(_ context.Context, beacons []Beacon, resultSize 
 	if len(beacons) <= resultSize {
 		return beacons
 	}
+	if resultSize <= 0 {
+		return nil
+	}
 
+	// Diversity is measured against the shortest beacon. It is beacons[0] and not
+	// result[0], because result is empty when a single beacon is requested.
+	best := beacons[0]
 	result := make([]Beacon, resultSize-1, resultSize)
 	copy(result, beacons[:resultSize-1])
-	_, diversity := a.selectMostDiverse(result, result[0])
+	_, diversity := a.selectMostDiverse(result, best)
 
 	// Check if we find a more diverse beacon in the rest.
-	mostDiverseRest, diversityRest := a.selectMostDiverse(beacons[resultSize-1:], result[0])
+	mostDiverseRest, diversityRest := a.selectMostDiverse(beacons[resultSize-1:], best)
 	if diversityRest > diversity {
 		return append(result, mostDiverseRest)
 	}
